@@ -28,11 +28,27 @@ for f in kf["findings"]:
     byp.setdefault(f["property"], []).append(f["signature"])
 findings = "\n".join("* **%s**: %s" % (p, ", ".join("`%s`" % s for s in byp[p])) for p in sorted(byp)) + "\n"
 
+import glob
+def seed_table(rnd):
+    rows = []
+    for m in sorted(glob.glob(os.path.join(ROOT, "seeded", "*", "meta.json"))):
+        d = json.load(open(m))
+        if d.get("round", 1) != rnd:
+            continue
+        name = os.path.basename(os.path.dirname(m))
+        caught = "; ".join("`./check %s`: %s" % (k, v) for k, v in d["caught_by"].items())
+        rows.append("| `%s`: %s | %s | %s | %s |" % (name, esc(d["title"]), d["property"],
+                    esc(d["needs_to_manifest"]), esc(caught)))
+    return ("| seeded change | breaks | needs | caught by |\n|---|---|---|---|\n" + "\n".join(rows) + "\n", len(rows))
+
 p = os.path.join(ROOT, "DESIGN.md")
 t = open(p).read()
-for tag, body in (("fixed", fixed), ("findings", findings)):
+s2, n2 = seed_table(2)
+s3, n3 = seed_table(3)
+for tag, body in (("fixed", fixed), ("findings", findings), ("seeds2", s2), ("seeds3", s3)):
     pat = re.compile(r"(<!-- gen:%s -->\n).*?(<!-- /gen -->)" % tag, re.S)
     assert pat.search(t), "marker gen:%s missing in DESIGN.md" % tag
     t = pat.sub(lambda m: m.group(1) + body + m.group(2), t)
 open(p, "w").write(t)
-print("DESIGN.md: %d fixed rows, %d findings in %d properties" % (len(rows), len(kf["findings"]), len(byp)))
+print("DESIGN.md: seeds round2=%d round3=%d;" % (n2, n3), end=" ")
+print("%d fixed rows, %d findings in %d properties" % (len(rows), len(kf["findings"]), len(byp)))
